@@ -312,3 +312,38 @@ package document
 //@ ensures err == nil ==> paraRunsOwn(t)
 //@ ensures err == nil && old(cellPropsOwn(t)) ==> cellPropsOwn(t)
 //@ ensures err == nil && old(rowPropsOwn(t)) ==> rowPropsOwn(t)
+
+// SetCellFormat writes the cell's own properties object (VAlign, TextDirection), the properties of its FIRST paragraph
+// (Justification) and of that paragraph's FIRST run; it installs an empty paragraph / run when there is none. Texts are
+// untouched (Run.Text.* is not in the frame). Not claimed: paragraph- and run-properties OBJECTS are not covered by an
+// ownership predicate, so "another cell's paragraph does not see the new justification" is stated at pointer level only.
+//@ func (*Table).SetCellFormat
+//@ props C09
+//@ requires t != nil && rowsOwn(t) && cellPropsOwn(t) && cellParasOwn(t) && paraRunsOwn(t)
+//@ modifies TableCell.Properties, TableCellProperties.VAlign, TableCellProperties.TextDirection, TableCell.Paragraphs, Paragraph.Properties, ParagraphProperties.Justification, Paragraph.Runs, Run.Properties, RunProperties.Bold, RunProperties.Italic, RunProperties.FontSize, RunProperties.Color, RunProperties.FontFamily
+//@ ensures err == nil <==> (0 <= row && row < len(t.Rows) && 0 <= col && col < len(t.Rows[row].Cells) && format != nil)
+//@ ensures err != nil ==> unchangedHeap()
+//@ ensures err == nil ==> t.Rows[row].Cells[col].Properties != nil && (old(t.Rows[row].Cells[col].Properties) != nil ==> t.Rows[row].Cells[col].Properties == old(t.Rows[row].Cells[col].Properties)) && (old(t.Rows[row].Cells[col].Properties) == nil ==> fresh(t.Rows[row].Cells[col].Properties))
+//@ ensures err == nil && string(format.VerticalAlign) != "" ==> fresh(t.Rows[row].Cells[col].Properties.VAlign) && t.Rows[row].Cells[col].Properties.VAlign.Val == string(format.VerticalAlign)
+//@ ensures err == nil && string(format.VerticalAlign) == "" ==> t.Rows[row].Cells[col].Properties.VAlign == old(ite(t.Rows[row].Cells[col].Properties == nil, nil, t.Rows[row].Cells[col].Properties.VAlign))
+//@ ensures err == nil && string(format.TextDirection) != "" ==> fresh(t.Rows[row].Cells[col].Properties.TextDirection) && t.Rows[row].Cells[col].Properties.TextDirection.Val == string(format.TextDirection)
+//@ ensures err == nil && string(format.TextDirection) == "" ==> t.Rows[row].Cells[col].Properties.TextDirection == old(ite(t.Rows[row].Cells[col].Properties == nil, nil, t.Rows[row].Cells[col].Properties.TextDirection))
+//@ ensures err == nil ==> t.Rows[row].Cells[col].Properties.GridSpan == old(ite(t.Rows[row].Cells[col].Properties == nil, nil, t.Rows[row].Cells[col].Properties.GridSpan)) && t.Rows[row].Cells[col].Properties.VMerge == old(ite(t.Rows[row].Cells[col].Properties == nil, nil, t.Rows[row].Cells[col].Properties.VMerge)) && t.Rows[row].Cells[col].Properties.TcBorders == old(ite(t.Rows[row].Cells[col].Properties == nil, nil, t.Rows[row].Cells[col].Properties.TcBorders)) && t.Rows[row].Cells[col].Properties.Shd == old(ite(t.Rows[row].Cells[col].Properties == nil, nil, t.Rows[row].Cells[col].Properties.Shd))
+//@ ensures err == nil && old(len(t.Rows[row].Cells[col].Paragraphs)) > 0 ==> t.Rows[row].Cells[col].Paragraphs == old(t.Rows[row].Cells[col].Paragraphs)
+//@ ensures err == nil && old(len(t.Rows[row].Cells[col].Paragraphs)) == 0 ==> len(t.Rows[row].Cells[col].Paragraphs) == 1 && freshArr(t.Rows[row].Cells[col].Paragraphs)
+//@ ensures err == nil && string(format.HorizontalAlign) != "" ==> t.Rows[row].Cells[col].Paragraphs[0].Properties != nil && fresh(t.Rows[row].Cells[col].Paragraphs[0].Properties.Justification) && t.Rows[row].Cells[col].Paragraphs[0].Properties.Justification.Val == string(format.HorizontalAlign)
+//@ ensures err == nil && string(format.HorizontalAlign) == "" && old(len(t.Rows[row].Cells[col].Paragraphs)) > 0 ==> t.Rows[row].Cells[col].Paragraphs[0].Properties == old(t.Rows[row].Cells[col].Paragraphs[0].Properties)
+//@ ensures err == nil && format.TextFormat == nil && old(len(t.Rows[row].Cells[col].Paragraphs)) > 0 ==> t.Rows[row].Cells[col].Paragraphs[0].Runs == old(t.Rows[row].Cells[col].Paragraphs[0].Runs)
+//@ ensures err == nil && format.TextFormat != nil && old(len(t.Rows[row].Cells[col].Paragraphs)) > 0 && old(len(t.Rows[row].Cells[col].Paragraphs[0].Runs)) > 0 ==> t.Rows[row].Cells[col].Paragraphs[0].Runs == old(t.Rows[row].Cells[col].Paragraphs[0].Runs)
+//@ ensures err == nil && format.TextFormat != nil ==> len(t.Rows[row].Cells[col].Paragraphs[0].Runs) >= 1 && t.Rows[row].Cells[col].Paragraphs[0].Runs[0].Properties != nil && (format.TextFormat.Bold ==> t.Rows[row].Cells[col].Paragraphs[0].Runs[0].Properties.Bold != nil) && (format.TextFormat.Italic ==> t.Rows[row].Cells[col].Paragraphs[0].Runs[0].Properties.Italic != nil) && (format.TextFormat.FontSize > 0 ==> t.Rows[row].Cells[col].Paragraphs[0].Runs[0].Properties.FontSize != nil && t.Rows[row].Cells[col].Paragraphs[0].Runs[0].Properties.FontSize.Val == itoa(format.TextFormat.FontSize * 2)) && (format.TextFormat.FontColor != "" ==> t.Rows[row].Cells[col].Paragraphs[0].Runs[0].Properties.Color != nil && t.Rows[row].Cells[col].Paragraphs[0].Runs[0].Properties.Color.Val == format.TextFormat.FontColor)
+//@ ensures err == nil ==> forall k int :: 1 <= k && k < len(t.Rows[row].Cells[col].Paragraphs) ==> t.Rows[row].Cells[col].Paragraphs[k] == old(t.Rows[row].Cells[col].Paragraphs[k])
+//@ ensures err == nil ==> forall k int, j int :: 0 <= k && k < old(len(t.Rows[row].Cells[col].Paragraphs)) && 0 <= j && j < old(len(t.Rows[row].Cells[col].Paragraphs[k].Runs)) && (k != 0 || j != 0) ==> t.Rows[row].Cells[col].Paragraphs[k].Runs[j] == old(t.Rows[row].Cells[col].Paragraphs[k].Runs[j])
+//@ ensures err == nil ==> forall r int, c int :: 0 <= r && r < len(t.Rows) && 0 <= c && c < len(t.Rows[r].Cells) && (r != row || c != col) ==> t.Rows[r].Cells[c].Properties == old(t.Rows[r].Cells[c].Properties) && (t.Rows[r].Cells[c].Properties != nil ==> t.Rows[r].Cells[c].Properties.VAlign == old(t.Rows[r].Cells[c].Properties.VAlign) && t.Rows[r].Cells[c].Properties.TextDirection == old(t.Rows[r].Cells[c].Properties.TextDirection))
+//@ ensures err == nil ==> forall r int, c int :: 0 <= r && r < len(t.Rows) && 0 <= c && c < len(t.Rows[r].Cells) && (r != row || c != col) ==> t.Rows[r].Cells[c].Paragraphs == old(t.Rows[r].Cells[c].Paragraphs)
+//@ ensures err == nil ==> forall r int, c int, k int :: 0 <= r && r < len(t.Rows) && 0 <= c && c < len(t.Rows[r].Cells) && (r != row || c != col) && 0 <= k && k < len(t.Rows[r].Cells[c].Paragraphs) ==> t.Rows[r].Cells[c].Paragraphs[k] == old(t.Rows[r].Cells[c].Paragraphs[k])
+//@ ensures err == nil ==> forall r int, c int, k int, j int :: 0 <= r && r < len(t.Rows) && 0 <= c && c < len(t.Rows[r].Cells) && (r != row || c != col) && 0 <= k && k < len(t.Rows[r].Cells[c].Paragraphs) && 0 <= j && j < len(t.Rows[r].Cells[c].Paragraphs[k].Runs) ==> t.Rows[r].Cells[c].Paragraphs[k].Runs[j] == old(t.Rows[r].Cells[c].Paragraphs[k].Runs[j])
+//@ ensures err == nil ==> rowsOwn(t)
+//@ ensures err == nil ==> cellPropsOwn(t)
+//@ ensures err == nil ==> cellParasOwn(t)
+//@ ensures err == nil ==> paraRunsOwn(t)
+//@ ensures err == nil && old(rowPropsOwn(t)) ==> rowPropsOwn(t)
